@@ -17,3 +17,5 @@ package util
 //@   requires interval > 0 && input >= 0
 //@   ensures [C05.rounddown] result == input - emod(input, interval)
 //@   modifies nothing
+//@   witness input := input
+//@   witness interval := interval
